@@ -18,6 +18,19 @@ PID = "C19"
 
 
 def gen_opts(rng):
+    if rng.random() < 0.2:
+        # values that collide when combinations are labelled by joining their string forms:
+        # (a, b_c) and (a_b, c) both read "a_b_c"; likewise with "-", "" and digits
+        sep = rng.choice(["_", "-", "", "_"])
+        a, b, c = rng.sample(["upper", "murray", "flow", "x", "q1", "7", "12", "ab"], 3)
+        k1, k2 = rng.sample(["region", "variable", "alpha", "k"], 2)
+        opts = {k1: [a, a + sep + b], k2: [b + sep + c, c]}
+        if rng.random() < 0.5:
+            opts[rng.choice(["month", "site_id"])] = rng.sample(range(1, 13), rng.randint(1, 3))
+        if rng.random() < 0.3:
+            # the same collision with integers: (1, 23) vs (12, 3)
+            opts = {k1: [1, 12], k2: [23, 3]}
+        return opts
     nopt = rng.randint(1, 4)
     keys = rng.sample(["alpha", "beta", "month", "site_id", "x1", "k"], nopt)
     opts = {}
@@ -27,7 +40,7 @@ def gen_opts(rng):
         if kind == "int":
             vals = rng.sample(range(-3, 40), nv)
         elif kind == "str":
-            vals = rng.sample(["a", "ab", "abc", "b_1", "A", "zz9", "model", "mod", "el"], nv)
+            vals = rng.sample(["a", "ab", "abc", "b_1", "A", "zz9", "model", "mod", "el", "Model", "AB", "d", "D"], nv)
         elif kind == "mixed":
             vals = rng.sample([1, 10, 11, "1x", "x1", "one", 100, "a", 0], nv)
         elif kind == "bare_int":
